@@ -67,6 +67,11 @@ CHECKS = {
   "All 3072 configurations are instantiated as real servers; the EHLO/LHLO capability set (order-free, exact arguments) is compared with a reference function written from the statement, HELO must list nothing, every extension parameter is probed (250 iff enabled, 504 iff disabled), STARTTLS/AUTH/SIZE/RCPTMAX/BDAT are exercised, and after a successful STARTTLS the capability set is checked again for the TLS state. exhaustive=true for the configuration space; one probe input per extension.",
   "AUTH= on servers not advertising AUTH and REQUIRETLS on plaintext connections of servers that enable it are not judged.",
   "DESIGN.md section 5 C12"),
+ "C11": ("exploration",
+  "runtime monitoring: recorded Mail/Rcpt arguments vs values known by construction (valid lines) and vs an independent conservative reference classifier (definitely-invalid lines)",
+  "Grammar-derived valid MAIL/RCPT lines carry their expected mailbox and option values by construction and are compared field by field with what the recording backend received (unset fields must be zero); every single-point mutation of seed lines, all short strings over ten syntactically significant characters used as the path, and a table of malformed / disabled-extension parameters are classified by ref.ClassifyLine, and the definitely-invalid ones must be answered 5xx without any backend call. All 32 extension-flag settings are used.",
+  "The verdict is relative to the harness's conservative reading of RFC 5321 4.1.2 and the extension RFCs; lenient forms are deliberately unjudged.",
+  "DESIGN.md section 5 C11"),
 }
 
 NOT_APPLICABLE = {
